@@ -365,9 +365,10 @@ def run_check(mod, tier, seed):
     xproblems = []
     if ok_drv:
         import kernel_xcheck
+        xtags = getattr(mod, "XCHECK_TAGS", None)       # modules with very long runs name the cases cheap enough for vm_compute
         cand = [i for i, c in enumerate(cases) if c.side in ("both", "model") and model[i] not in (None, "HANG", "CRASH", "SKIPPED")
-                and len(c.line) < 3000 and len(model[i]) < 6000 and c.line.isascii()]
-        want = 24 if tier == "quick" else 400
+                and len(c.line) < 3000 and len(model[i]) < 6000 and c.line.isascii() and (xtags is None or c.tag in xtags)]
+        want = getattr(mod, "XCHECK_MAX", 24) if tier == "quick" else 10 * getattr(mod, "XCHECK_MAX", 40)
         pick = sorted(rng.sample(cand, min(want, len(cand))))
         if pick:
             ans, xlog = kernel_xcheck.run([cases[i].line for i in pick], prop, timeout=240 if tier == "quick" else 1800)
